@@ -184,3 +184,24 @@ PROPS["C12"] = {
          "params": {"quick": {"PROP": 12, "N": 2, "TRIES": 2, "LOOKUPFAIL": 0, "CANCEL": 0}, "thorough": {"PROP": 12, "N": 3, "TRIES": 2, "LOOKUPFAIL": 0, "CANCEL": 0}}},
     ],
 }
+
+SCAN_FILES = ["root/fakes.go", "root/c08_cache.go", "root/c06_scanner.go"]
+
+PROPS["C06"] = {
+    "files": SCAN_FILES,
+    "claim": "Against a model HBase (ROWS rows with symbolic one-byte keys and 1..2 cells, REGIONS regions with symbolic boundaries, "
+             "symbolic [start, stop) incl. empty bounds and bounds equal to boundaries, forward and reversed, with and without partial "
+             "results; per response a symbolic number of results, symbolic cuts of rows into partial fragments, heart-beats, an early "
+             "'no more results'), the real scanner returns until io.EOF exactly the rows in range, in scan order, each once and with "
+             "all of its cells.",
+    "outside": "more rows / regions / responses than the bounds; keys longer than one byte (the reversed 'closest row before' "
+               "approximation with 8 x 0xff is exercised only for one-byte boundaries); the renew goroutine; scan metrics",
+    "assumptions": ["the model server implements HBase's scan protocol as described in the harness (open / continue / close, "
+                    "more_results_in_region, more_results, partial flags)"],
+    "jobs": [
+        {"name": "scan_forward", "pkg": "root", "entry": "VerifScan", "reach": ["scanned"],
+         "params": {"quick": {"ROWS": 2, "REGIONS": 2, "RESP": 3, "NROWS": 2, "REVERSED": 0}, "thorough": {"ROWS": 3, "REGIONS": 3, "RESP": 4, "NROWS": 2, "REVERSED": 0}}},
+        {"name": "scan_reversed", "pkg": "root", "entry": "VerifScan", "reach": ["scanned"],
+         "params": {"quick": {"ROWS": 2, "REGIONS": 2, "RESP": 3, "NROWS": 2, "REVERSED": 1}, "thorough": {"ROWS": 3, "REGIONS": 3, "RESP": 4, "NROWS": 2, "REVERSED": 1}}},
+    ],
+}
